@@ -47,6 +47,50 @@ Proof.
   apply le_bind; [apply HA|]. intros y. destruct y; try apply le_refl. destruct b; [apply le_refl|apply IH].
 Qed.
 
+Lemma mapargs_app_le f a : le_res (mapargs_app app1 f a) (mapargs_app app2 f a).
+Proof.
+  induction a as [|x a IH]; cbn [mapargs_app]; [apply le_refl|].
+  apply le_bind; [apply HA|]. intros y. apply le_bind; [exact IH|]. intros; apply le_refl.
+Qed.
+
+Lemma compact_app_le f l : forall last, le_res (compact_app app1 f last l) (compact_app app2 f last l).
+Proof.
+  induction l as [|x l IH]; intros last; cbn [compact_app]; [apply le_refl|].
+  apply le_bind; [apply HA|]. intros y. destruct y; try apply le_refl.
+  destruct b; [apply IH|]. apply le_bind; [apply IH|]. intros; apply le_refl.
+Qed.
+
+Lemma scan_app_le three f l : forall li la, le_res (scan_app app1 three f li la l) (scan_app app2 three f li la l).
+Proof.
+  induction l as [|x l IH]; intros li la; cbn [scan_app]; [apply le_refl|].
+  apply le_bind; [apply HA|]. intros o. apply le_bind; [apply IH|]. intros; apply le_refl.
+Qed.
+
+Lemma iir_app_le three ini f l : le_res (iir_app app1 three ini f l) (iir_app app2 three ini f l).
+Proof.
+  destruct l as [|x l]; cbn [iir_app]; [apply le_refl|].
+  apply le_bind; [apply HA|]. intros o. apply le_bind; [apply scan_app_le|]. intros; apply le_refl.
+Qed.
+
+Lemma merge_app_le f l1 : forall l2, le_res (merge_app app1 f l1 l2) (merge_app app2 f l1 l2).
+Proof.
+  induction l1 as [|a l1 IH1]; intros l2.
+  - destruct l2; cbn [merge_app]; apply le_refl.
+  - induction l2 as [|b l2 IH2]; cbn [merge_app]; [apply le_refl|].
+    apply le_bind; [apply HA|]. intros y. destruct y; try apply le_refl.
+    destruct b0.
+    + apply le_bind; [apply IH1|]. intros; apply le_refl.
+    + apply le_bind; [exact IH2|]. intros; apply le_refl.
+Qed.
+
+Lemma minmax_app_le f l : forall mn mx mni mxi,
+  le_res (minmax_app app1 f mn mx mni mxi l) (minmax_app app2 f mn mx mni mxi l).
+Proof.
+  induction l as [|x l IH]; intros mn mx mni mxi; cbn [minmax_app]; [apply le_refl|].
+  apply le_bind; [apply HA|]. intros k. apply le_bind; [apply le_refl|]. intros le.
+  apply le_bind; [apply le_refl|]. intros gr. apply IH.
+Qed.
+
 Lemma run_list_method_le m l args : le_res (run_list_method app1 m l args) (run_list_method app2 m l args).
 Proof.
   unfold run_list_method.
@@ -65,10 +109,46 @@ Proof.
     apply le_bind; [apply index_where_le|intros; apply le_refl].
   - destruct args as [|f [|? ?]]; try apply le_refl. destruct (is_func f 1); [|apply le_refl].
     apply le_bind; [apply index_where_le|intros; apply le_refl].
+  - (* minMax *)
+    destruct args as [|f [|? ?]]; try apply le_refl. destruct (is_func f 1); [|apply le_refl].
+    destruct l; [apply le_refl|]. apply le_bind; [apply HA|]. intros; apply minmax_app_le.
+  - (* number *)
+    destruct args as [|f [|? ?]]; try apply le_refl. destruct (is_func f 2); [|apply le_refl].
+    apply le_bind; [apply mapargs_app_le|intros; apply le_refl].
+  - (* compact *)
+    destruct args as [|f [|? ?]]; try apply le_refl. destruct (is_func f 2); [|apply le_refl].
+    destruct l; [apply le_refl|]. apply le_bind; [apply compact_app_le|intros; apply le_refl].
+  - (* combine *)
+    destruct args as [|f [|? ?]]; try apply le_refl. destruct (is_func f 2); [|apply le_refl].
+    apply le_bind; [apply mapargs_app_le|intros; apply le_refl].
+  - (* combine3 *)
+    destruct args as [|f [|? ?]]; try apply le_refl. destruct (is_func f 3); [|apply le_refl].
+    apply le_bind; [apply mapargs_app_le|intros; apply le_refl].
+  - (* combineN *)
+    destruct args as [|n [|f [|? ?]]]; try apply le_refl; destruct n; try apply le_refl.
+    destruct (z <? 1)%Z; [apply le_refl|]. destruct (is_func f 1); [|apply le_refl].
+    destruct (100000 <? z)%Z; [apply le_refl|].
+    apply le_bind; [apply mapargs_app_le|intros; apply le_refl].
+  - (* iir *)
+    destruct args as [|i [|f [|? ?]]]; try apply le_refl.
+    destruct (is_func i 1); [|apply le_refl]. destruct (is_func f 2); [|apply le_refl].
+    apply le_bind; [apply iir_app_le|intros; apply le_refl].
+  - (* iirCombine *)
+    destruct args as [|i [|f [|? ?]]]; try apply le_refl.
+    destruct (is_func i 1); [|apply le_refl]. destruct (is_func f 3); [|apply le_refl].
+    apply le_bind; [apply iir_app_le|intros; apply le_refl].
+  - (* cross *)
+    destruct args as [|o [|f [|? ?]]]; try apply le_refl.
+    destruct (is_func f 2); [|apply le_refl]. destruct o; try apply le_refl.
+    apply le_bind; [apply mapargs_app_le|intros; apply le_refl].
+  - (* merge *)
+    destruct args as [|o [|f [|? ?]]]; try apply le_refl.
+    destruct (is_func f 2); [|apply le_refl]. destruct o; try apply le_refl.
+    apply le_bind; [apply merge_app_le|intros; apply le_refl].
 Qed.
 
 Lemma run_method_le rv m args : le_res (run_method app1 rv m args) (run_method app2 rv m args).
-Proof. destruct rv; cbn [run_method]; try apply le_refl. apply run_list_method_le. Qed.
+Proof. destruct rv; cbn [run_method]; try apply run_list_method_le; apply le_refl. Qed.
 
 End Lib.
 
@@ -104,7 +184,9 @@ Qed.
 
 Lemma ref_step_le env a : le_res (ref_step known ev1 env a) (ref_step known ev2 env a).
 Proof.
-  destruct a; cbn [ref_step]; try apply le_refl.
+  destruct a; cbn [ref_step].
+  - (* const *) apply le_refl.
+  - (* ident *) apply le_refl.
   - (* let *) apply le_bind; [apply HE|]. intros; apply HE.
   - (* if *) apply le_bind; [apply HE|]. intros cv. destruct cv; try apply le_refl.
     destruct b; apply HE.
@@ -126,6 +208,7 @@ Proof.
       destruct av; try (apply le_bind; [apply HE|intros; apply le_refl]).
       destruct b; [apply le_refl|]. apply le_bind; [apply HE|intros; apply le_refl]. }
     apply le_bind; [apply HE|]. intros. apply le_bind; [apply HE|intros; apply le_refl].
+  - (* closure *) apply le_refl.
   - (* list *) apply le_bind; [apply r_list_le|intros; apply le_refl].
   - (* index *) apply le_bind; [apply HE|]. intros. apply le_bind; [apply HE|intros; apply le_refl].
   - (* map *) apply r_map_le.
